@@ -232,6 +232,62 @@ def _check_stop_iteration():
     return res
 
 
+def _check_stop_iteration_threads():
+    """StopIteration raised by f with threads > 1: the call ends with an exception (StopIteration itself, or the RuntimeError Python makes of
+    it) - it neither returns a list nor hangs. Run in a fresh interpreter with a deadline: a hang must not take the check with it."""
+    import subprocess
+    import sys
+
+    import tcv
+
+    res = Result()
+    code = '''
+import sys, warnings
+warnings.filterwarnings('ignore')
+sys.path.insert(0, %r)
+import logging
+logging.disable(logging.CRITICAL)
+impl, threads, at = sys.argv[1], int(sys.argv[2]), int(sys.argv[3])
+if impl == 'threading':
+    from taskchain.utils.threading import parallel_map
+    call = lambda f, xs: parallel_map(f, xs, threads=threads, use_tqdm=False, chunksize=3)
+else:
+    from taskchain.utils.iter import parallel_map
+    import taskchain.utils.iter as it
+    it.tqdm = lambda d=None, **k: d
+    call = lambda f, xs: parallel_map(f, xs, threads=threads)
+xs = [10, 11, 12, 13, 14]
+def f(x):
+    if x == xs[at]:
+        raise StopIteration('from f')
+    return x
+try:
+    r = call(f, list(xs))
+    print('RETURNED', r)
+except StopIteration:
+    print('RAISED StopIteration')
+except RuntimeError as e:
+    print('RAISED RuntimeError', type(e.__cause__).__name__)
+except BaseException as e:
+    print('RAISED', type(e).__name__)
+''' % (tcv.REPO + '/src')
+    for impl in ('threading', 'iter'):
+        for threads in (2, 3):
+            for at in (0, 3):
+                res.add('evaluations')
+                res.add('transitions')
+                case = {'kind': 'stopiter-threads', 'impl': impl, 'threads': threads, 'at': at}
+                try:
+                    p = subprocess.run([sys.executable, '-c', code, impl, str(threads), str(at)], capture_output=True, text=True, timeout=30)
+                    out = (p.stdout.strip().splitlines() or ['(no output)'])[-1]
+                except subprocess.TimeoutExpired:
+                    out = 'HANG (no answer within 30 s)'
+                if not (out.startswith('RAISED StopIteration') or out.startswith('RAISED RuntimeError')):
+                    kind = 'hangs' if out.startswith('HANG') else 'exception-lost'
+                    res.violations.append(Violation(f'parallel_map[{impl}] {kind}', f'threads={threads}, f raises StopIteration at element {at}: {out}', case))
+    return res
+
+
 def _check_exception_types():
     """whatever f raises is what the caller gets, and no element is given to f twice - for every kind of exception, also the ones the
     machinery itself may raise or catch (RuntimeError and its subclasses, StopIteration, KeyError, OSError)"""
@@ -332,6 +388,7 @@ def run(tier, seed):
     res = Result()
     ck = _check_chunked(tier)
     ck.merge(_check_exception_types())
+    ck.merge(_check_stop_iteration_threads())
     res.merge(ck)
     res.merge(_check_stop_iteration())
     if ck.violations:
@@ -356,6 +413,8 @@ def replay(case):
     import tcv
 
     tcv.quiet_library()
+    if case['kind'] == 'stopiter-threads':
+        return [v for v in _check_stop_iteration_threads().violations if v.case == case]
     if case['kind'] == 'exctype':
         return [v for v in _check_exception_types().violations if v.case == case]
     if case['kind'] == 'stopiter':
